@@ -22,6 +22,7 @@ import (
 var c18Opt = evGenOpt{
 	Tree:      ck.GenOpt{MinBlocks: 8, MaxBlocks: 30, Epochs: []uint64{2, 3}, Validators: []int{3, 4}, Sup: true, NodeKeyChoices: []int{0, 1, 2}},
 	Votes:     true,
+	Early:     true,
 	MaxEvents: 30,
 }
 
@@ -152,6 +153,9 @@ func c18Exec(c evCase, x *pbt.Ctx) error {
 	}
 	if refused > 0 {
 		x.Class("some-message-refused")
+	}
+	if h.early > 0 {
+		x.Class("early-votes")
 	}
 	x.NonTrivial = competing || refused > 0
 	var he *hangErr
